@@ -147,7 +147,7 @@ class GenRun:
         return p.returncode, p.stdout or "", p.stderr or ""
 
     # ---- Coq side
-    def coq_check(self, ip_table=None, entry="VT", use_ctx=False, spec=True):
+    def coq_check(self, ip_table=None, entry="VT", use_ctx=False, spec=True, spec_cmp="obs_same_set"):
         """Writes Check.v next to Run.v and compiles both. Returns parsed results per struct index."""
         ok, out = coq_make()
         if not ok:
@@ -192,17 +192,20 @@ class GenRun:
                     "| _, _, _ => false end) %d%%nat | None => [] end." % (i, i, i, i, i, ncases))
                 if spec:
                     lines.append(
-                        "Definition ms_%d := Eval vm_compute in mism (fun j => "
-                        "match nth_error v_%d j, nth_error obs_%d j with "
-                        "| Some (Some r), Some o => obs_same_set (obs_of_spec d_%d (expected ipc tab_%d d_%d r)) o "
-                        "| Some None, Some o => obs_eqb o (ObErr (bs \"ErrNil\" ++ sd_name d_%d)) "
-                        "| _, _ => false end) %d%%nat." % (i, i, i, i, i, i, i, ncases))
+                        ("Definition ms_%d := Eval vm_compute in mism (fun j => "
+                         "match nth_error v_%d j, nth_error obs_%d j with "
+                         "| Some (Some r), Some o => " + spec_cmp + " (obs_of_spec d_%d (expected ipc tab_%d d_%d r)) o "
+                         "| Some None, Some o => obs_eqb o (ObErr (bs \"ErrNil\" ++ sd_name d_%d)) "
+                         "| _, _ => false end) %d%%nat.") % (i, i, i, i, i, i, i, ncases))
                 else:
                     lines.append("Definition ms_%d : list nat := []." % i)
                 lines.append("Definition calls_%d := Eval vm_compute in match p_%d with Some f => map (fun j => "
                              "match nth_error v_%d j, nth_error ctx_%d j with Some r, Some (fl, e) => "
                              "s_calls (o_st (exec_file ipc (flip_ctx fl e) f r)) | _, _ => 0%%nat end) (seq 0 %d%%nat) | None => [] end."
                              % (i, i, i, i, ncases))
+                lines.append("Definition gcalls_%d := Eval vm_compute in match g_%d with Some f => map (fun j => "
+                             "match nth_error v_%d j with Some r => s_calls (o_st (exec_file ipc background f r)) | _ => 0%%nat end) (seq 0 %d%%nat) | None => [] end."
+                             % (i, i, i, ncases))
                 lines.append("Definition allocs_%d := Eval vm_compute in match p_%d with Some f => map (fun j => "
                              "match nth_error v_%d j with Some r => s_allocs (o_st (exec_file ipc background f r)) + "
                              "length (s_gw (o_st (exec_file ipc background f r))) | _ => 0%%nat end) (seq 0 %d%%nat) | None => [] end."
@@ -212,8 +215,9 @@ class GenRun:
                 lines.append("Definition ms_%d : list nat := []." % i)
                 lines.append("Definition calls_%d : list nat := []." % i)
                 lines.append("Definition allocs_%d : list nat := []." % i)
+                lines.append("Definition gcalls_%d : list nat := []." % i)
             lines.append("Definition kf_%d := Eval vm_compute in kf_mask tab_%d d_%d." % (i, i, i))
-            lines.append("Definition res_%d := (%d%%nat, ok_%d, diff_%d, mm_%d, ms_%d, calls_%d, allocs_%d, kf_%d)." % (i, i, i, i, i, i, i, i, i))
+            lines.append("Definition res_%d := (%d%%nat, ok_%d, diff_%d, mm_%d, ms_%d, calls_%d, allocs_%d, kf_%d, gcalls_%d)." % (i, i, i, i, i, i, i, i, i, i))
         n = len(self.meta)
         lines.append("Definition all_results := [%s]." % "; ".join("res_%d" % m["index"] for m in self.meta))
         lines.append("Set Printing Width 1000000. Set Printing Depth 1000000.")
@@ -244,12 +248,12 @@ def parse_results(out, n):
     txt = txt.replace("\n", " ")
     # tuples look like (0, true, (0, 0), [], [], [..], [..])
     res = {}
-    pat = re.compile(r"\((\d+), (true|false), \((\d+), (\d+)\), (\[[^\]]*\]), (\[[^\]]*\]), (\[[^\]]*\]), (\[[^\]]*\]), (\d+)\)")
+    pat = re.compile(r"\((\d+), (true|false), \((\d+), (\d+)\), (\[[^\]]*\]), (\[[^\]]*\]), (\[[^\]]*\]), (\[[^\]]*\]), (\d+), (\[[^\]]*\])\)")
     for m in pat.finditer(txt):
         res[int(m.group(1))] = {
             "cert": m.group(2) == "true", "diff": (int(m.group(3)), int(m.group(4))),
             "mm": parse_nat_list(m.group(5)), "ms": parse_nat_list(m.group(6)),
-            "calls": parse_nat_list(m.group(7)), "allocs": parse_nat_list(m.group(8)), "kf": int(m.group(9))}
+            "calls": parse_nat_list(m.group(7)), "allocs": parse_nat_list(m.group(8)), "kf": int(m.group(9)), "gcalls": parse_nat_list(m.group(10))}
     if len(res) != n:
         raise RuntimeError("could not parse Coq results (%d of %d): %s" % (len(res), n, out[-1500:]))
     return res
